@@ -24,7 +24,7 @@ PROPS["C16"] = {
     "level_note": "std::sort is modelled by a merge sort (values are determined, index order among ties is not compared); memmove on the sorted window is "
                   "modelled on List (stale last cell not represented); floating-point rounding is not modelled: theorems are over linear orders / the reals, "
                   "the Pearson/Spearman values are measured (1e-9 / 1e-12) against long double; NaN inputs are outside the model (IEEE != vs. order)",
-    "gen": ["Cmplx", "StepsBase", "StepsArray", "StepsMedian"],
+    "gen": ["Cmplx", "StepsBase", "StepsArray", "StepsMedian", "CtorMedian"],
     "lean_props": ["DspVerif.Props.C16", "DspVerif.Props.C16More", "DspVerif.Props.C16Gen"],
     "harness": [{"src": "c16.cpp", "cfg": "rel", "tol": {"corr": (1e-11, 1e-13)}}],
     "rule": "sort/median: every length 1..2000 x 10 content classes (distinct, repeated, sorted, reversed, constant, sorted/reversed with repeats, "
